@@ -159,6 +159,8 @@ W_PROVED = {
     # leaves and dispatchers
     'convert_text', 'convert_space', 'convert_parbreak', 'convert_ident', 'convert_expr', 'convert_expr_impl', 'convert_pattern', 'convert_array_item', 'convert_dict_item',
     'convert_param', 'convert_destructuring_item',
+    # list-based (through the list engine)
+    'convert_array', 'convert_destructuring', 'convert_params', 'convert_parenthesized_impl',
     # math
     'convert_math',
     # function calls
@@ -210,6 +212,15 @@ FLOW_NODEKINDS = {
 }
 
 
+GRAMMAR.update({
+    'Array': ['LeftParen', 'RightParen', 'Comma', 'Spread'],
+    'Destructuring': ['LeftParen', 'RightParen', 'Comma', 'Spread', 'Named', 'Underscore', 'Destructuring'],
+    'Params': ['LeftParen', 'RightParen', 'Comma', 'Spread', 'Named', 'Underscore', 'Destructuring'],
+    'Parenthesized': ['LeftParen', 'RightParen', 'Underscore', 'Destructuring'],
+})
+# a `#` occurs only below these nodes (markup, math)
+HASH_PARENTS = ['Markup', 'Math', 'MathAttach', 'MathFrac', 'MathRoot', 'MathDelimited', 'Args', 'Equation', 'Named', 'Array', 'Spread']
+
 # parents below which no (other) expression occurs: only the listed kinds
 NO_EXPR_PARENTS = {
     'Heading': ['HeadingMarker', 'Markup'],
@@ -235,19 +246,32 @@ def write_grammar(here):
     lines = ['// GENERATED by contracts/gen_converters.py from its GRAMMAR table -- parser fact PF10 (trusted; validated by `vp-replay FACTS`)',
              '/// kinds that may occur below any node: expressions, whitespace, comments and `#`',
              'pub open spec fn trivia_child_kind(k: SyntaxKind) -> bool { is_ws_kind(k) || is_comment_kind(k) || k == SyntaxKind::Hash }',
+             '/// the nodes below which a `#` occurs',
+             'pub open spec fn hash_parent(k: SyntaxKind) -> bool { matches!(k, %s) }' % ' | '.join('SyntaxKind::' + k for k in HASH_PARENTS),
              'pub open spec fn common_child_kind(k: SyntaxKind) -> bool { ast::expr_kind(k) || trivia_child_kind(k) }',
              '/// parents below which expressions occur only if listed',
              'pub open spec fn no_expr_parent(k: SyntaxKind) -> bool { matches!(k, %s) }' % ' | '.join('SyntaxKind::' + k for k in NO_EXPR_PARENTS),
+             '#[verifier::opaque]',
              'pub open spec fn child_kind_ok(parent: SyntaxKind, child: SyntaxKind) -> bool {',
-             '    trivia_child_kind(child) || (ast::expr_kind(child) && !no_expr_parent(parent)) || match parent {']
+             '    (child == SyntaxKind::Hash ==> hash_parent(parent)) && (trivia_child_kind(child) || (ast::expr_kind(child) && !no_expr_parent(parent)) || match parent {']
     for pk, ks in GRAMMAR.items():
         lines.append('        SyntaxKind::%s => matches!(child, %s),' % (pk, ' | '.join('SyntaxKind::' + k for k in ks)))
-    lines += ['        _ => true,', '    }', '}',
+    lines += ['        _ => true,', '    })', '}',
               '#[verifier::external_body]',
               'pub proof fn pf_grammar(n: &SyntaxNode)',
               '    requires tree_wf(n),',
               '    ensures forall|j: int| 0 <= j < n.children_s().len() ==> child_kind_ok(n.kind_s(), (#[trigger] n.children_s()[j]).kind_s()),',
-              '{}', '']
+              '{}',
+              '/// the non-expression item kinds below the list-like nodes',
+              'pub open spec fn list_item_kind(parent: SyntaxKind, child: SyntaxKind) -> bool {',
+              '    match parent {'] + ['        SyntaxKind::%s => matches!(child, %s),' % (pk, ' | '.join('SyntaxKind::' + k for k in GRAMMAR[pk] if k not in ('LeftParen', 'RightParen', 'Comma'))) for pk in ('Array', 'Destructuring', 'Params', 'Parenthesized')] + [
+              '        _ => false,', '    }', '}',
+              '/// the instance of the table for the list-like nodes',
+              'pub proof fn lemma_list_child_kinds(parent: SyntaxKind, child: SyntaxKind)',
+              '    requires matches!(parent, SyntaxKind::Array | SyntaxKind::Destructuring | SyntaxKind::Params | SyntaxKind::Parenthesized), child_kind_ok(parent, child),',
+              '    ensures trivia_child_kind(child) || ast::expr_kind(child) || matches!(child, SyntaxKind::LeftParen | SyntaxKind::RightParen | SyntaxKind::Comma) || list_item_kind(parent, child),',
+              '        child == SyntaxKind::Hash ==> hash_parent(parent),',
+              '{ reveal(child_kind_ok); }', '']
     open(os.path.join(here, '..', 'prelude', 'grammar_gen.rs'), 'w').write('\n'.join(lines))
 
 
@@ -269,7 +293,8 @@ def write_replay_tables(here):
          "pub fn listed(parent: K) -> Option<&'static [K]> {", '    Some(match parent {']
     for pk, ks in GRAMMAR.items():
         L.append('        K::%s => &[%s],' % (pk, ', '.join('K::' + k for k in ks)))
-    L += ['        _ => return None,', '    })', '}', 'pub fn no_expr_parent(k: K) -> bool { matches!(k, %s) }' % ' | '.join('K::' + k for k in NO_EXPR_PARENTS)]
+    L += ['        _ => return None,', '    })', '}', 'pub fn no_expr_parent(k: K) -> bool { matches!(k, %s) }' % ' | '.join('K::' + k for k in NO_EXPR_PARENTS),
+          'pub fn hash_parent(k: K) -> bool { matches!(k, %s) }' % ' | '.join('K::' + k for k in HASH_PARENTS)]
     w = open(os.path.join(here, '..', 'prelude', 'wspec.rs')).read()
     m = re.search(r'pub open spec fn is_inner_kind\(k: SyntaxKind\) -> bool \{\s*matches!\(k, (.*?)\)\s*\}', w, re.S)
     kinds = re.findall(r'SyntaxKind::(\w+)', m.group(1))
@@ -307,8 +332,10 @@ def main():
         # standard proof prologue: parser facts for this node, and enough fuel for the abstract interpretations
         out.append('@insert body-start')
         out.append('    proof { pf_leaf_text(%s); pf_children(%s); pf_line_comments(%s); reveal_with_fuel(tr, 4); reveal_with_fuel(nest_ok, 4); reveal_with_fuel(plain_lines, 4); }' % (n, n, n))
-        if fn in W_PROVED:
-            out.append('    proof { pf_sig(%s); pf_token_text(%s); pf_unmarked(self.store_s(), %s); pf_grammar(%s); reveal_with_fuel(words, 4); reveal_with_fuel(alt_ok, 4); }' % (n, n, n, n))
+        if fn in W_PROVED and fn in LISTC:
+            out.append('    proof { pf_sig(%s); }' % n)
+        elif fn in W_PROVED:
+            out.append('    proof { pf_sig(%s); pf_token_text(%s); pf_unmarked(self.store_s(), %s); pf_grammar(%s); reveal(child_kind_ok); reveal_with_fuel(words, 4); reveal_with_fuel(alt_ok, 4); }' % (n, n, n, n))
         for pl in ex.get('proof', []):
             out.append('    proof { %s }' % pl.replace('{n}', n))
         if fn in FLOW:
@@ -338,11 +365,22 @@ def main():
         if fn in LISTC:
             k, ty, lits = LISTC[fn]
             out.append('    proof { %s reveal_with_fuel(tr, 4); }' % ' '.join('reveal_strlit("%s");' % l for l in lits))
+            if fn in W_PROVED:
+                # W: the children that are not items are delimiters, separators and whitespace -- wordless; a `#` introduces an item
+                out.append('    proof { lemma_w_algebra(); lemma_lw_empty(); if unmarked(self.store_s(), %s) { lemma_nonitems_wordless::<ast::%s>(self.store_s(), %s); } }' % (n, ty, n))
+                out.append('    proof {')
+                out.append('        let e = Seq::<Seq<char>>::empty();')
+                out.append('        assert forall|s: Seq<Seq<char>>| #[trigger] (e + s + e) == s by { assert(e + s + e =~= s); }')
+                out.append('        assert forall|s: Seq<Seq<char>>| #[trigger] (s + e) == s by { assert(s + e =~= s); }')
+                out.append('        assert forall|s: Seq<Seq<char>>| #[trigger] (e + s) == s by { assert(e + s =~= s); }')
+                out.append('    }')
             out.append('@closure %d params "ctx: Context, node: %s<\'a>" ret "(d: ArenaDoc<\'a>)"' % (k, ty))
             out.append('  requires')
             out.append('    - node.wf() && tree_wf(node.node())')
             out.append('  ensures')
             out.append('    - [item_docs_closed C04 C06 C12] doc_closed(d@, self.unit_s())')
+            if fn in W_PROVED:
+                out.append('    - [item_words_preserved C01 C06] unmarked(self.store_s(), node.node()) ==> wst(d@) && wd(d@) == sig_leaves(node.node())')
         if fn in FLOW_EXTRA:
             out.append('  ensures')
             for e in FLOW_EXTRA[fn]:
